@@ -1,16 +1,17 @@
 from tsv.driver import run_check
 from contracts.modules import transform_harness
 from contracts.elementwise import SPECS
+from contracts.dtypes import grad_harnesses
 
 
 def run(tier, seed, update_ledger=False, only=None, jobs=None):
-    hs = [transform_harness(s, m, {"C16"}) for s in SPECS.values() for m in ("forward", "inverse")]
+    hs = [transform_harness(s, m, {"C16"}) for s in SPECS.values() for m in ("forward", "inverse")] + grad_harnesses(tier)
     hs = [h for h in hs if not only or only in h.hid]
     return run_check("C16", hs, tier=tier, seed=seed, update_ledger=update_ledger, jobs=jobs, level="other",
                      explanation=("PARTIAL claim (connectivity only). Decided by contracts: for every result tensor of forward / inverse, every leaf (input, context, trainable "
                                   "parameter) on which the VALUE depends (its symbols occur in the result terms) is also reachable through differentiable ops (ghost gradset), "
                                   "i.e. no detach / .data / no_grad / .item() severs all gradient paths; and every partial operation is defined on the path (finite values). "
                                   "NOT decided: that the gradients autograd returns equal the true derivatives (torch.autograd is external and assumed), the finite-difference clause."),
-                     unbounded_in=["all values"], bounded_in={"classes": "elementwise transform classes (nonlinearities, standard, normalization in eval mode), both directions"},
-                     not_decided=["numerical correctness of autograd's gradients (external code)", "coupling / autoregressive / linear / flow classes are not yet under the connectivity contract"],
+                     unbounded_in=["all values"], bounded_in={"classes": "elementwise transform classes; coupling and autoregressive transforms with their real conditioner networks, linear family, permutations, squeeze, composite, CDF, BatchNorm, two flows and two distributions (forward / inverse / log_prob / transform_to_noise)"},
+                     not_decided=["numerical correctness of autograd's gradients (external code)", "UMNN transforms (custom autograd function) are not under the connectivity contract"],
                      assumptions=["torch.autograd computes the true derivative of a composition of differentiable ops"])
